@@ -36,6 +36,66 @@ MODES = ["noheading", "heading", "context", "context_heading", "count", "list", 
 CONTEXT_NH = ("context", "after_only", "before_only", "c2a0")
 
 
+# lines no glob parser accepts (unclosed class, unclosed alternation, reversed range, dangling escape).  rg's guide and
+# gitignore(5): such a line is reported and skipped; the other lines of the file stay in force.
+MALFORMED = ["broken[", "a{b", "[z-a]", "x\\"]
+
+
+def add_partially_invalid_ignores(rng, root, dirs, files):
+    """ignore files (.ignore, .rgignore, .gitignore inside a repository) below the root directory with malformed lines
+    among valid rules that hide files which exist in that directory or below it.  Returns the hidden-file predicate's
+    data: [(directory, [glob...])]."""
+    made = []
+    real = [d for d in dirs if d != "."]
+    for d in real:
+        if rng.random() >= 0.45:
+            continue
+        below = [f for f in files if f.startswith(d + "/")]
+        if not below:
+            continue
+        kind = rng.choice([".ignore", ".rgignore", ".gitignore"])
+        if kind == ".gitignore":
+            os.makedirs(os.path.join(root, ".git"), exist_ok=True)
+        rules = [os.path.basename(f) for f in rng.sample(below, min(len(below), rng.randint(1, 2)))]
+        if rng.random() < 0.5:
+            rules.append(rng.choice(["slow*", "bin*.txt", "*.log", "f1*"]))
+        if d == "d0" and rng.random() < 0.4:
+            rules.append(rng.choice(["sub", "sub/", "/sub"]))          # hides a directory: in force under `-g *.txt` too
+        lines = list(rules)
+        for b in rng.sample(MALFORMED, rng.randint(1, 2)):
+            lines.insert(rng.randint(0, len(lines)), b)
+        with open(os.path.join(root, d, kind), "w") as f:
+            f.write("".join(l + "\n" for l in lines))
+        os.chmod(os.path.join(root, d, kind), 0o644)
+        made.append((d, rules))
+    return made
+
+
+def badglob_tree(root):
+    """corner tree: a sub-directory whose ignore file has malformed lines among valid rules; the valid rules hide files in
+    it and below it, and a same-named file elsewhere stays visible.  One directory per kind of ignore file."""
+    os.makedirs(os.path.join(root, ".git"))
+    for d, kind in (("sub", ".ignore"), ("rgi", ".rgignore"), ("giti", ".gitignore")):
+        os.makedirs(os.path.join(root, d, "deep"))
+        with open(os.path.join(root, d, kind), "w") as f:
+            f.write("secret.txt\nbroken[\n*.log\na{b\n[z-a]\nx\\\n")
+        for n in ("secret.txt", "visible.txt", "trace.log", "deep/secret.txt", "deep/keep.txt"):
+            with open(os.path.join(root, d, n), "w") as f:
+                f.write("a hit in %s/%s\n" % (d, n))
+    os.makedirs(os.path.join(root, "other"))
+    for n in ("other/secret.txt", "other/a.txt", "top.txt"):
+        with open(os.path.join(root, n), "w") as f:
+            f.write("a hit in %s\n" % n)
+    for dp, ds, fs in os.walk(root):
+        os.chmod(dp, 0o755)
+        for x in fs:
+            os.chmod(os.path.join(dp, x), 0o644)
+    hidden = ["%s/%s" % (d, n) for d in ("sub", "rgi", "giti") for n in ("secret.txt", "trace.log", "deep/secret.txt")]
+    shown = ["%s/%s" % (d, n) for d in ("sub", "rgi", "giti") for n in ("visible.txt", "deep/keep.txt")] + [
+        "other/secret.txt", "other/a.txt", "top.txt"]
+    return hidden, shown
+
+
 def gen_tree(rng, root):
     files = []
     ndirs = rng.randint(1, 3)
@@ -74,6 +134,7 @@ def gen_tree(rng, root):
         f.write("first line\nthe top file has a hit\n")
     os.chmod(os.path.join(root, "top.txt"), 0o644)
     files.append("top.txt")
+    add_partially_invalid_ignores(rng, root, dirs, files)
     add_links(rng, root, dirs, files)
     with open(os.path.join(root, "pre.sh"), "w") as f:
         f.write('#!/bin/sh\ncase "$1" in *slow*) sleep 0.0%d;; esac\nexec cat "$1"\n' % rng.randint(1, 6))
@@ -151,7 +212,7 @@ def explicit_paths(root):
     return ["top.txt"] + ds
 
 
-def mode_args(mode):
+def mode_args(mode, noglob=False):
     a = ["--color", "never"]
     if mode == "noheading":
         a += ["--no-heading", "-n"]
@@ -175,9 +236,12 @@ def mode_args(mode):
         a += ["--json"]
     elif mode == "passthru_nh":
         a += ["--no-heading", "-n", "--passthru"]
+    # `-g *.txt` whitelists: a whitelisted file is searched whatever the ignore files say (only rules hiding directories
+    # still count); `-g !pre.sh` selects the same files of the generated trees and leaves the ignore files in force
+    glob = "!pre.sh" if noglob else "*.txt"
     if mode == "files":
-        return a + ["--files", "-g", "*.txt"]
-    return a + ["-e", "hit", "-g", "*.txt"]
+        return a + ["--files", "-g", glob]
+    return a + ["-e", "hit", "-g", glob]
 
 
 def separator_of(mode):
@@ -271,24 +335,31 @@ def split_blocks(mode, out):
     return res, problems, summary
 
 
-def check_cli(ctx, rng, ntrees, runs_per_tree):
+def check_cli(ctx, rng, ntrees, runs_per_tree, directed=True):
     trees = []
     jobs = []
     root = K.mktree("c08")
     corpus_tree(root)
     trees.append(root)
-    for mode in ("noheading", "files", "heading", "count"):
+    for mode in ("noheading", "files", "heading", "count") if directed else ():
         for n in (2, 4, 8):
             jobs.append(dict(root=root, mode=mode, n=n, pre=False, sort=False, follow=True, explicit=False))
-    for mode in ("noheading", "count", "list"):
+    for mode in ("noheading", "count", "list") if directed else ():
         for n in (2, 3, 8):
             jobs.append(dict(root=root, mode=mode, n=n, pre=False, sort=False, follow=False, explicit=True))
-    for mode, n in (("noheading", 2), ("files", 4), ("list", 8)):
+    for mode, n in (("noheading", 2), ("files", 4), ("list", 8)) if directed else ():
         jobs.append(dict(root=root, mode=mode, n=n, pre=False, sort=False, follow=True, explicit=False, maxsize=25))
-    for mode, n in (("after_only", 2), ("before_only", 3), ("c2a0", 4), ("context", 2), ("after_only", 8)):
+    for mode, n in (("after_only", 2), ("before_only", 3), ("c2a0", 4), ("context", 2), ("after_only", 8)) if directed else ():
         jobs.append(dict(root=root, mode=mode, n=n, pre=False, sort=False, follow=False, explicit=True))
-    for mode, n in (("noheading", 2), ("heading", 4), ("context", 3), ("count", 8), ("json", 2)):
+    for mode, n in (("noheading", 2), ("heading", 4), ("context", 3), ("count", 8), ("json", 2)) if directed else ():
         jobs.append(dict(root=root, mode=mode, n=n, pre=False, sort=False, follow=False, explicit=False, stats=True))
+    root = K.mktree("c08")
+    bg_hidden, bg_shown = badglob_tree(root)
+    trees.append(root)
+    for mode, n in (("noheading", 2), ("files", 4), ("list", 8), ("count", 3), ("json", 2), ("heading", 16), ("files", 2)) if directed else ():
+        jobs.append(dict(root=root, mode=mode, n=n, pre=False, sort=False, follow=False, explicit=False, badglob=True, noglob=True))
+    if directed:
+        jobs.append(dict(root=root, mode="list", n=4, pre=False, sort=False, follow=False, explicit=True, badglob=True, noglob=True))
     for _ in range(ntrees):
         root = K.mktree("c08")
         gen_tree(rng, root)
@@ -299,11 +370,11 @@ def check_cli(ctx, rng, ntrees, runs_per_tree):
             pre = rng.random() < 0.35 and mode != "files"
             sort = rng.random() < 0.15
             jobs.append(dict(root=root, mode=mode, n=n, pre=pre, sort=sort, follow=rng.random() < 0.45,
-                             explicit=rng.random() < 0.4,
+                             explicit=rng.random() < 0.4, noglob=rng.random() < 0.5,
                              maxsize=rng.choice([None, None, None, 12, 25, 40, 100, 3000]),
                              stats=(rng.random() < 0.3 and mode not in ("files",))))
     def run(j):
-        base = mode_args(j["mode"])
+        base = mode_args(j["mode"], j.get("noglob", False))
         if j["pre"]:
             base = base + ["--pre", "./pre.sh"]
         if j["sort"]:
@@ -316,9 +387,9 @@ def check_cli(ctx, rng, ntrees, runs_per_tree):
             base = ["--stats"] + base
         if j["explicit"]:
             base = base + explicit_paths(j["root"])
-        r1 = K.run_rg(["-j1"] + base, j["root"], nobody=False)
-        rn = K.run_rg(["-j%d" % j["n"]] + base, j["root"], nobody=False)
-        rn2 = K.run_rg(["-j%d" % j["n"]] + base, j["root"], nobody=False)
+        r1 = K.run_rg(["-j1"] + base, j["root"], nobody=False, timeout=150)
+        rn = K.run_rg(["-j%d" % j["n"]] + base, j["root"], nobody=False, timeout=150)
+        rn2 = rn if rn["timeout"] else K.run_rg(["-j%d" % j["n"]] + base, j["root"], nobody=False, timeout=150)
         return r1, rn, rn2
     res = K.pmap(run, jobs, workers=6)
     mlines, mmeta = [], []
@@ -333,10 +404,14 @@ def check_cli(ctx, rng, ntrees, runs_per_tree):
                       tree=tree_listing(j["root"]),
                       args=" ".join((["--stats"] if j.get("stats") and j["mode"] != "json" else []) +
                                     (["--max-filesize", str(j["maxsize"])] if j.get("maxsize") else []) +
-                                    (["-L"] if j["follow"] else []) + mode_args(j["mode"]) +
+                                    (["-L"] if j["follow"] else []) + mode_args(j["mode"], j.get("noglob", False)) +
                                     (explicit_paths(j["root"]) if j["explicit"] else [])),
                       j1=dict(status=r1["status"], out=repr(r1["out"][:400]), err=repr(r1["err"][:200])),
                       jn=dict(status=rn["status"], out=repr(rn["out"][:400]), err=repr(rn["err"][:200])))
+        if (rn["timeout"] or rn2["timeout"]) and not r1["timeout"] and r1["secs"] < 10:
+            ctx.violation("-j%d did not finish within 150 s on a tree where -j1 took %.1f s (the parallel walker visits more "
+                          "than the single-threaded one)" % (j["n"], r1["secs"]), replay)
+            continue
         has_stats = bool(j.get("stats")) and j["mode"] != "json"
         if has_stats:
             o1, t1 = strip_stats(j["mode"], r1["out"], False)
@@ -361,6 +436,15 @@ def check_cli(ctx, rng, ntrees, runs_per_tree):
         # diagnostics: only the walker's messages about links (loops, dangling targets) under -L are expected; each is
         # determined by its path, so the two runs must print the same multiset of lines
         e1 = canon_err(r1["err"])
+        if any(l[0] == "badglob" for l in e1):
+            ctx.cov["runs_with_partially_invalid_ignore_file"] = ctx.cov.get("runs_with_partially_invalid_ignore_file", 0) + 1
+        if j.get("badglob") and j["mode"] in ("files", "list") and not j["explicit"]:
+            # the documented behaviour on the fixed tree: the valid rules next to the malformed lines stay in force
+            got = set(os.path.normpath(x.decode()) for x in r1["out"].split(b"\n") if x)
+            if got != set(bg_shown):
+                ctx.violation("-j1: a partially invalid ignore file: listed %r, expected %r (hidden by the valid rules: %r)" % (
+                    sorted(got), sorted(bg_shown), bg_hidden), replay)
+                continue
         unexpected = [l for l in e1 if l[0] == "other" or (l[0] == "nothing searched" and not j.get("maxsize"))
                       or (l[0] in ("loop", "nofile") and not j["follow"])]
         if unexpected:
@@ -437,8 +521,8 @@ def check_cli(ctx, rng, ntrees, runs_per_tree):
                           "rule / theorem par_output_is_block_permutation no longer describes the code)" % (
                               "search_parallel" if which == "par" else "search"),
                           dict(replay, which=which, model=repr((m_out or b"")[:300])), nfi=True)
-    ctx.cov["runs_with_a_different_block_order"] = orders_differ
-    ctx.cov["cli_jobs"] = len(jobs)
+    ctx.cov["runs_with_a_different_block_order"] = ctx.cov.get("runs_with_a_different_block_order", 0) + orders_differ
+    ctx.cov["cli_jobs"] = ctx.cov.get("cli_jobs", 0) + len(jobs)
     for root in trees:
         K.rmtree(root)
 
@@ -486,6 +570,14 @@ def canon_err(err):
         m = re.match(rb"rg: (?:IO error for operation on )?(\S+?): (?:IO error for operation on \S+: )?No such file or directory", l)
         if m:
             res.append(("nofile", os.path.normpath(m.group(1).decode())))
+            continue
+        m = re.match(rb"(?:rg: )?(\S+): line (\d+): error parsing glob ", l)
+        if m:
+            # a malformed line of an ignore file: a fact about (file, line); compared as a set (a directory reachable
+            # through several links is read several times)
+            t = ("badglob", os.path.normpath(m.group(1).decode("latin1")), int(m.group(2)))
+            if t not in res:
+                res.append(t)
             continue
         if l.startswith(b"rg: No files were searched") or l.startswith(b"Running with --debug will show"):
             res.append(("nothing searched", ""))          # e.g. --max-filesize below every file's size
@@ -586,7 +678,13 @@ def run(ctx):
     check_bufwriter(ctx, rng, ctx.count(150))
     check_crlf_known(ctx)
     check_walk_race(ctx)
-    check_cli(ctx, rng, max(4, ctx.count(8)), 9)
+    # the fixed corner trees first: when one of them already shows a failing input, the generated trees are skipped (a
+    # walker that loses a directory's matcher can take very long on trees with directory links)
+    check_cli(ctx, rng, 0, 0, directed=True)
+    if any(not nfi for _, nfi, _ in ctx.violations):
+        ctx.notes.append("a fixed corner tree gave a failing input: the generated trees were not run")
+    else:
+        check_cli(ctx, rng, max(4, ctx.count(8)), 9, directed=False)
     K.report_drift(ctx, GEN_TARGETS, bool(ctx.violations))
     ctx.assumptions += [
         "PARTIAL: a worker's bufwtr.print(buffer) is atomic (termcolor's stdout lock) — trusted, exercised only",
